@@ -33,6 +33,22 @@ func (e *Engine) AxiomTerms() (terms []*smt.Term, srcs []string, err error) {
 	return
 }
 
+// DefFuns returns the recursive spec-function definitions built so far.
+func (e *Engine) DefFuns() []*smt.DefFun {
+	var names []string
+	for n, sf := range e.SpecFuncs {
+		if sf.def != nil {
+			names = append(names, n)
+		}
+	}
+	sort.Strings(names)
+	var out []*smt.DefFun
+	for _, n := range names {
+		out = append(out, e.SpecFuncs[n].def)
+	}
+	return out
+}
+
 // Defs returns the define-fun-rec texts of all recursive spec functions built so far.
 func (e *Engine) Defs() []string {
 	var names []string
